@@ -1283,6 +1283,14 @@ impl ProtocolState {
         while let Some(id) = self.get_next_ack_timeout() {
             self.operation_ack_timeouts.pop();
             result = fold_mqtt_result(result, self.complete_operation_as_failure(id, GneissError::new_ack_timeout()));
+
+            if self.current_operation == Some(id) {
+                // one of the operation's packets (a pubrel) was only partly encoded; the outbound
+                // stream cannot be continued in a well-formed way
+                error!("[{} ms] process_ack_timeouts - operation {} timed out while partially encoded", self.elapsed_time_ms, id);
+                self.current_operation = None;
+                result = fold_mqtt_result(result, Err(GneissError::new_connection_closed("operation timed out while its packet was partially written")));
+            }
         }
 
         result
